@@ -467,6 +467,84 @@ func C16(c *fw.Ctx) {
 			}
 		}
 	}
+	// one operator node, operands of changing kinds: a function whose body applies one operator to its two
+	// parameters is called with every ordered pair of operand pairs over a pool of numbers, number-like texts
+	// and other texts (the second call sees a node that has already worked on other kinds); the same with the
+	// node in a loop body over two arrays; each result is what the operator gives on those operands alone
+	{
+		id := model.Id
+		pool := []func() *model.N{
+			func() *model.N { return model.Num(5) },
+			func() *model.N { return model.Num(0.5) },
+			func() *model.N { return model.Str(" taka") },
+			func() *model.N { return model.Str("3") },
+			func() *model.N { return model.Str("\u09e7\u09e8") },
+			func() *model.N { return model.Str("") },
+		}
+		type pr struct{ a, b int }
+		var pairs []pr
+		for a := range pool {
+			for b := range pool {
+				pairs = append(pairs, pr{a, b})
+			}
+		}
+		for _, op := range []string{"+", "*", "==", "<"} {
+			for _, p1 := range pairs {
+				for _, p2 := range pairs {
+					if !c.Mine() {
+						continue
+					}
+					prog := []*model.N{
+						model.Fun("ap", []string{"a", "b"}, model.Return(model.Bin(op, id("a"), id("b")))),
+						model.Print(model.CallN("ap", pool[p1.a](), pool[p1.b]())),
+						model.Print(model.CallN("ap", pool[p2.a](), pool[p2.b]())),
+						model.Print(model.CallN("ap", pool[p1.a](), pool[p1.b]())),
+					}
+					judge(c, prog, judgeOpts{SigPrefix: "one-operator-node|" + op, NoKind: true})
+					c.R.States++
+				}
+			}
+			// differential (no model): all pairs through the one node in one run, in every rotation of the
+			// list and its reverse, against each call in a program of its own
+			for rot := range pairs {
+				if !c.Mine() {
+					continue
+				}
+				pre := func() []*model.N {
+					return []*model.N{model.Fun("ap", []string{"a", "b"}, model.Return(model.Bin(op, id("a"), id("b"))))}
+				}
+				var exprs []func() *model.N
+				for k := range pairs {
+					p := pairs[(k+rot)%len(pairs)]
+					exprs = append(exprs, func() *model.N { return model.CallN("ap", pool[p.a](), pool[p.b]()) })
+				}
+				batchVsSingle(c, "one-operator-node|"+op, pre, exprs, "")
+				c.R.States++
+			}
+			if c.Mine() {
+				var as, bs []*model.N
+				for _, p := range pairs {
+					as = append(as, pool[p.a]())
+					bs = append(bs, pool[p.b]())
+				}
+				for rev := 0; rev < 2; rev++ {
+					var at func() *model.N
+					if rev == 0 {
+						at = func() *model.N { return id("i") }
+					} else {
+						at = func() *model.N { return model.Bin("-", model.Num(float64(len(pairs)-1)), id("i")) }
+					}
+					prog := []*model.N{
+						model.Var("as", model.Arr(as...)), model.Var("bs", model.Arr(bs...)),
+						model.For(model.Var("i", model.Num(0)), model.Bin("<", id("i"), model.Num(float64(len(pairs)))), model.Asg("i", model.Bin("+", id("i"), model.Num(1))),
+							model.Block(model.Print(model.Bin(op, model.Idx(id("as"), at()), model.Idx(id("bs"), at()))))),
+					}
+					judge(c, prog, judgeOpts{SigPrefix: "one-operator-node-in-loop|" + op, NoKind: true})
+					c.R.States++
+				}
+			}
+		}
+	}
 	// long texts: the same text of n characters (n around 2^12 and 2^13, ASCII and Bangla) from a literal,
 	// from two halves joined by +, from a variable, from a function and from ইনপুট, in eight contexts
 	{
